@@ -39,6 +39,15 @@ CLAIMED = {
              "truthiness) and indices symbolic; after each step exception class vs. list, well-formed rdf:first/rdf:rest chain with no "
              "orphans, len and iteration; reads on cyclic/truncated chains must terminate.",
         ref="DESIGN.md section 3 C19"),
+    "C11": dict(
+        technique="symbolic execution of rdflib.paths evaluators (CrossHair + z3) against a relational-algebra reference with bounded fixpoint",
+        text="Bounded symbolic model checking of property-path evaluation through Graph.triples/subjects/objects/subject_objects: all "
+             "depth<=1 path expressions (quick; all depth-2 in thorough) x edge-predicate shapes (n<=2, thorough 3 edges) x the four "
+             "bound/unbound end combinations; edge end points and bound terms symbolic (falsy terms, terms absent from the graph, cycles "
+             "and self-loops are the solver's choice); produced pairs compared with composition/union/converse/closure, termination by a "
+             "step budget, no duplicates for closures. One recorded finding (negated sets with inverse members) is re-checked against an "
+             "oracle modelling exactly that defect so that other violations at the same site are still reported.",
+        ref="DESIGN.md section 3 C11"),
 }
 
 NA = {
@@ -50,7 +59,6 @@ NA = {
     "C08": "check not built yet in this commit (planned: engine S)",
     "C09": "check not built yet in this commit (planned: engines K + R)",
     "C10": "check not built yet in this commit (planned: engine S)",
-    "C11": "check not built yet in this commit (planned: engine S)",
     "C12": "every parser keys its blank-node label map on text extracted by regex/SAX/JSON; a symbolic label is realised by that extraction (probe: no verdict in 300 s), what remains is a boolean 'same label or not'",
     "C13": "check not built yet in this commit (planned: engine S)",
     "C14": "canonicalisation hashes n3() strings with SHA-256 (C code) before its first structural branch, realising every symbolic input; the interesting inputs are boolean structures",
